@@ -859,6 +859,54 @@ def large_grids(chk, ps, quick, nprng):
         sparse_probe(chk, ps, c, npos, nprng, "large-grid", sh_rows=shr)
 
 
+def beyond_1024(chk, ps, quick):
+    """Round 6 — grids beyond 1024 points across (1030, 1280, 1536; thorough also 2050, 2304), where even a few unit draws are
+    expensive and rounds 1-5 never went: ONE seeded screen per size, its 2-D DFT F, and the ratio |F(k)|² / PSD(k) — for a real
+    Gaussian screen with the stated spectrum an exponential variate with one common mean K for every k != 0.  K is estimated robustly
+    (median / ln 2); the mean ratio over each frequency ROW and each COLUMN (N values, standard deviation N^-1/2 = 0.03) must lie within
+    0.25 of 1 (8 sigma).  A block of frequencies that carries no power — coefficients drawn in blocks of 1024 rows with the remainder
+    dropped, seeded change C07-I — halves the ratio on those rows and their mirror rows."""
+    rng = chk.rng
+    sizes = [rng.choice([1030, 1280, 1536])] if quick else [1030, 1280, 1536, 2050, 2304]
+    for N in sizes:
+        c = dict(N=N, r0=logu(rng, 0.05, 0.5), delta=logu(rng, 0.01, 0.1), L0=logu(rng, 5.0, 100.0), l0=logu(rng, 0.001, 0.01))
+        seed = rng.randint(0, 2 ** 31)
+        rep = dict(c, seed=seed, clause="beyond-1024")
+        chk.oracle_cases += 1
+        chk.count("oracle:beyond-1024")
+        chk.case(("beyond-1024", N, c["r0"], c["delta"], c["L0"], c["l0"], seed))
+        s = numpy.asarray(ps.ft_phase_screen(*_args(c), seed=seed), dtype=float)
+        if s.shape != (N, N) or not numpy.all(numpy.isfinite(s)):
+            chk.fail("beyond-1024:shape", "ft_phase_screen(r0=%r, N=%d, delta=%r, L0=%r, l0=%r, seed=%d): shape %s, all finite: %s"
+                     % (c["r0"], N, c["delta"], c["L0"], c["l0"], seed, s.shape, bool(numpy.all(numpy.isfinite(s)))), rep)
+            continue
+        F = numpy.fft.fft2(s)
+        k = numpy.fft.fftfreq(N) * N
+        df = 1.0 / (N * c["delta"])
+        f2 = (k[:, None] ** 2 + k[None, :] ** 2) * df * df
+        with numpy.errstate(all="ignore"):
+            P = psd_text(f2, c["r0"], c["L0"], c["l0"])
+        P[0, 0] = numpy.inf                                   # the zero frequency is removed: no clause about it here
+        ratio = (F.real ** 2 + F.imag ** 2) / P
+        valid = numpy.isfinite(P) & (P > 0)
+        K = float(numpy.median(ratio[valid])) / math.log(2.0)
+        if not (K > 0 and math.isfinite(K)):
+            chk.fail("beyond-1024:power", "ft_phase_screen(r0=%r, N=%d, delta=%r, L0=%r, l0=%r, seed=%d): the median of |DFT|²/PSD is %r"
+                     % (c["r0"], N, c["delta"], c["L0"], c["l0"], seed, K), rep)
+            continue
+        ratio /= K
+        for axis, name in ((1, "row"), (0, "column")):
+            m = numpy.sum(numpy.where(valid, ratio, 0.0), axis=axis) / numpy.maximum(numpy.sum(valid, axis=axis), 1)
+            i = int(numpy.argmax(numpy.abs(m - 1.0)))
+            track("beyond-1024:" + name, abs(float(m[i]) - 1.0), 0.25)
+            if not abs(float(m[i]) - 1.0) <= 0.25:
+                nbad = int(numpy.sum(numpy.abs(m - 1.0) > 0.25))
+                chk.fail("beyond-1024:%s-power" % name, "ft_phase_screen(r0=%r, N=%d, delta=%r, L0=%r, l0=%r, seed=%d): the frequency %s of wave "
+                         "number %d carries %.3g times the power the stated spectrum gives it (mean of |DFT|²/PSD over its %d frequencies, relative "
+                         "to the screen's own robust mean; 1 +- 0.03 expected; %d %ss are off by more than 0.25)"
+                         % (c["r0"], N, c["delta"], c["L0"], c["l0"], seed, name, int(k[i]), float(m[i]), N, nbad, name), dict(rep, wave_number=int(k[i]), ratio=float(m[i])))
+
+
 def extreme_parameters(chk, ps, quick, nprng):
     """the full linear-map oracle at the edges of the parameter domain: no / enormous / sub-pixel outer scale, vanishing and
     many-pixel inner scale, r0 and pixel sizes of 1e-4 … 1e4 (all > 0; L0 = inf is the customary 'no outer scale')"""
@@ -1264,6 +1312,7 @@ def run(chk):
     # round 5 (generator audit): input classes and call histories the sections above never produce
     WORST.clear()
     large_grids(chk, ps, quick, nprng)
+    beyond_1024(chk, ps, quick)
     extreme_parameters(chk, ps, quick, nprng)
     near_equal_history(chk, ps, quick, nprng)
     seed_classes(chk, ps, quick)
